@@ -115,6 +115,10 @@ def recvStep (st : RecvState) (ts : List String) : RecvState × List String :=
         | .loseNew => { w with host := {} }
         | _ => w
       ({ st with sys := s' }, out1 ++ delta w' s'.σ.w)
+  | ["stats"] =>
+    let arena := s.σ.w.arena
+    let strs := arena.flatMap fun d => [d.name, d.target] ++ d.modulePath.toList ++ d.file.toList ++ d.fields
+    (st, [s!"stats {strs.eraseDups.length} {arena.length}"])
   | ["h", "discard"] =>
     let w := dropR s.σ
     let out1 := sortLines (delta s.σ.w w) ++ [showStack w.host.stack]
